@@ -316,6 +316,21 @@ def r2_sqlite(ctx: Context) -> None:
             good = i < len(params) and rp == params[i]
             ctx.check(good, "R2.sqlite-alignment", f"sqlite3:insert:{col}", f"column {col} (position {i}) <- save parameter {params[i] if i < len(params) else '?'}",
                       f"column {col} (position {i}) is bound to `{src(e)[:60]}`, which carries parameter `{rp}` instead of `{params[i] if i < len(params) else '?'}` (positions shifted or swapped)", save, e)
+    # the SQLite save, too, is a function of its arguments: it reads nothing back from the database (no SELECT deciding what is written) and never
+    # refreshes a subset of the columns of an existing row (UPDATE) - a row left by another experiment would keep its other columns
+    n_sql = 0
+    for c_ in [x for x in calls_in(save.node) if isinstance(x.func, ast.Attribute) and x.func.attr in ("execute", "executemany", "executescript") and x.args]:
+        a0 = c_.args[0]
+        text = _sql_text(prog, a0.id) if isinstance(a0, ast.Name) else a0.value if isinstance(a0, ast.Constant) and isinstance(a0.value, str) else None
+        if text is None:
+            continue
+        n_sql += 1
+        text_nc = re.sub(r"--[^\n]*", "", text)
+        for kw, why in (("SELECT", "reads the stored checkpoint back while saving: what is written then depends on what the file held before"),
+                        ("UPDATE", "updates some columns of the stored row in place: the other columns keep whatever an earlier save (possibly of another experiment) left there")):
+            if re.search(rf"\b{kw}\b", text_nc, re.I):
+                ctx.fail("R4.sqlite-function-of-arguments", f"sqlite3.save:{kw}", f"`{src(c_)[:70]}` {why}", save, c_)
+    ctx.ok("R4.sqlite-function-of-arguments", "sqlite3.save:statements", f"{n_sql} SQL statement(s) executed by the SQLite save: whole-row replacement only")
     load = ctx.func(f"{SQL}:load_calibrator_state")
     unpack = [s_ for s_ in walk_scope(load.node) if isinstance(s_, ast.Assign) and isinstance(s_.targets[0], ast.Tuple) and "SQL_LOAD_QUERY" in src(s_.value)]
     ctx.floor("R2", "SELECT unpacking in the SQLite load", len(unpack), 1)
@@ -517,6 +532,13 @@ def r7_restore_order(ctx: Context, pl: Plumbing) -> None:
             p = g.path_avoiding(g.entry, {sn}, ctor_nodes)
             ctx.check(p is None, "R7.order", f"restore_from_checkpoint:after-ctor:{src(s.targets[0])}", f"`{src(s.targets[0])}` is overwritten after the constructor ran",  # type: ignore[attr-defined]
                       f"`{src(s)[:70]}` runs before the constructor call (the constructor then resets it)", pl.restore, s)
+    # every overwrite happens on every path that returns the calibrator: a store under a condition (e.g. only for seeded runs) restores the state sometimes
+    ret_nodes = {n_ for n_ in g.live if n_.kind == "return"}
+    for s in pl.restore_stores:
+        sn_all = set(g.nodes_of(s))
+        p = g.path_avoiding(g.entry, ret_nodes, sn_all, labels={"next", "true", "false", "loop", "exhaust"}) if ret_nodes else None
+        ctx.check(p is None, "R7.unconditional", f"restore_from_checkpoint:unconditional:{src(s.targets[0])}", f"`{src(s.targets[0])}` is restored on every path",  # type: ignore[attr-defined]
+                  f"`{src(s)[:80]}` is skipped on some path through restore_from_checkpoint: that part of the state is then whatever the constructor made of it, not what was saved", pl.restore, s, path_text(pl.restore, p))
     # the restored object is the one returned
     rets = [r for r in walk_scope(pl.restore.node) if isinstance(r, ast.Return)]
     tgt = None
